@@ -121,18 +121,21 @@ def compare(case, out, model):
         return summary_ok(case["bits"], out, model)
     p = len(case["data"][0][0])
     for k in range(p):
-        W = Fraction(model[4 * k], model[4 * k + 1])
-        V = Fraction(model[4 * k + 2], model[4 * k + 3])
+        W = Fraction(model[6 * k], model[6 * k + 1])
+        V = Fraction(model[6 * k + 2], model[6 * k + 3])
+        R2 = Fraction(model[6 * k + 4], model[6 * k + 5])
         g = C.f32_bits_to_float(out["rhat"][k])
         if W == 0:
             continue                     # undefined diagnostic (constant column): NaN/inf allowed
-        ref = V / W
+        ref = R2                         # Model.Stats.split_rhat2 evaluated in Q
+        if ref != V / W:
+            return "param %d: model split_rhat2 = %s but var+/W = %s" % (k, float(ref), float(V / W))
         if not math.isfinite(g):
             return "param %d: R-hat is %r but W=%s > 0" % (k, g, float(W))
         g2 = Fraction(g) ** 2
         if abs(g2 - ref) > tol_rel(case, k, W) * ref:
             return "param %d: R-hat^2 = %.8g, model var+/W = %.8g" % (k, float(g2), float(ref))
-    pos = 4 * p
+    pos = 6 * p
     r = summary_ok(out["rhat"], out["rs_rhat"], model[pos:pos + 3])
     if r:
         return "R-hat " + r
